@@ -47,6 +47,8 @@ UNIT = Unit(
                         && final(self).dosc_speed == old(self).dosc_speed && final(self).pools == old(self).pools && final(self).stakes == old(self).stakes""", "C05", "C17"),
                     C("wf", "final(self).coins.wf()", "C20")],
            injects=[Inject("entry", "proof { let x = self.fee_pool.0; assert((x >> 16) <= x) by (bit_vector); }"),
+                    Inject(("after_let", "pseudocoin_data"), "let ghost pd = pseudocoin_data; proof { assert(is_reward_cdh(*old(self), action, pd)); assert(self.coins == old(self).coins && spec_tip906(*self) == spec_tip906(*old(self))); }"),
+                    Inject("end", "proof { assert(self.coins@ == view_insert(old(self).coins@, spec_proposer_reward(old(self).height), pd, spec_tip906(*old(self)))); }"),
                     Inject("end", "proof { let d = self.coins@.coins[spec_proposer_reward(old(self).height)]; lemma_origin_reward(old(self).coins@.coins, old(self).height, d); assert(self.coins@.coins =~= old(self).coins@.coins.insert(spec_proposer_reward(old(self).height), d)); }")]),
         Fn(S, "apply_proposer_action", impl="UnsealedState", home="C05", implicit_props=("C09", "C05", "C17"),
            requires=[C("wf", "old(self).coins.wf() && (spec_tip906(*old(self)) ==> counts_ok(old(self).coins@)) && origin_ok(old(self).coins@.coins) && reward_fresh(*old(self))"),
@@ -103,7 +105,7 @@ UNIT = Unit(
                    }
                }
            }"""})]),
-        Fn(C_, "inner", impl="CoinMapping", mode="assume"),
+        Fn(C_, "inner", impl="CoinMapping", mode="assume", ensures=[C("root", "HashVal(novasmt::root_of(res@)) == spec_root_coins(self@)", "C07", note="unit coins proves inner() == the field and root_hash() == root_of(field); root_hash() is named spec_root_coins(view) in the abstract units")]),
         Fn("src/state/applytx.rs", "apply_tx_batch_impl", mode="assume", **ap_batch_impl()),
         Fn(S, "apply_tx_batch", impl="UnsealedState", home="C02", implicit_props=("C09", "C02"), **st_apply_tx_batch()),
         Fn(C_, "get_coin", impl="CoinMapping", mode="assume", **cm_get_coin()),
@@ -116,6 +118,18 @@ UNIT = Unit(
            ensures=[C("is", "res == (if self.0.pools@.contains_key(key) { Some(self.0.pools@[key]) } else { None::<PoolState> })", "C16", "C15")]),
         Fn(S, "stake", impl="SealedState", home="C13", implicit_props=("C09", "C13"),
            ensures=[C("is", "res == (if self.0.stakes@.contains_key(key) { Some(self.0.stakes@[key]) } else { None::<StakeDoc> })", "C13")]),
+        Fn(S, "raw_coins_smt", impl="SealedState", home="C07", implicit_props=("C09", "C07"), ensures=[C("is", "HashVal(novasmt::root_of(res@)) == spec_header(self.0).coins_hash", "C07", note="the tree handed out for Merkle proofs of coins has the root the header commits to")]),
+        Fn(T, "iter_hashes", impl="TransactionSet", mode="assume", sig_subst=[("impl Iterator<Item = TxHash> + '_", "Vec<TxHash>")], ensures=[C("keys", "is_enum(self@, res@)", "C07", "C03")]),
+        Fn(S, "transaction_sorted_posn", impl="SealedState", home="C07", implicit_props=("C09", "C07"),
+           ensures=[C("found", "res is Some ==> exists|ks: Seq<TxHash>| is_enum(self.0.transactions@, ks) && res->Some_0 < ks.len() && #[trigger] ks[res->Some_0 as int] == txhash", "C07",
+                      note="the position handed out is that of the requested hash in the set's own enumeration (TransactionSet::iter_hashes: the keys of the ordered map)"),
+                    C("absent", "res is None <==> !self.0.transactions@.contains_key(txhash)", "C07")],
+           rewrites=[("ANF", "map", 0, 4, {2: """proof { let ks = __c0@; let m = self.0.transactions@;
+               if __c2 is None { assert forall|i: int| 0 <= i < ks.len() implies ks[i] != txhash by { assert(__c1.items_f()[i] == __c1@[i]); assert(call_ensures(__cl2, (&__c1.items_f()[i],), false)); }
+                   if m.contains_key(txhash) { assert(ks.contains(txhash)); let i = choose|i: int| 0 <= i < ks.len() && ks[i] == txhash; } }
+               else { assert(__c1.items_f() == __c1@); let i = choose|i: int| 0 <= i < __c1@.len() && #[trigger] __c1.items_f()[i] == __c2->Some_0 && call_ensures(__cl2, (&__c1.items_f()[i],), true); assert(ks[i] == txhash); assert(ks.contains(txhash)); } }"""})],
+           closures=[Closure(0, "__p: &(usize, TxHash)", "(r: bool)", first_stmt="let (_, k) = __p;", ensures=[C("eq", "r == (__p.1 == txhash)", "C07")]),
+                     Closure(1, "__q: (usize, TxHash)", "(r: usize)", first_stmt="let (i, _) = __q;", ensures=[C("fst", "r == __q.0", "C07")])]),
         Fn(S, "raw_stakes", impl="SealedState", home="C13", implicit_props=("C09", "C13"), ensures=[C("is", "res == self.0.stakes", "C13")]),
         Fn(S, "apply_tx", impl="UnsealedState", home="C02", implicit_props=("C09", "C02"),
            requires=[C("pre", "batch_pre(*old(self), seq![*tx])")],
